@@ -116,6 +116,27 @@ func seeds() []seedFile {
 				add(a.name, b)
 			}
 		}
+		// a longer animation (more frames than a small worker pool): frame-parallel readers queue work
+		{
+			var frames []image.Image
+			var durs []int
+			base := mkImg(12, 10, "pal16", "binary", 33)
+			for i := 0; i < 14; i++ {
+				f := *base
+				f.Pix = append([]byte(nil), base.Pix...)
+				for k := 0; k < 9; k++ {
+					p := ((i*11 + k*5) % (f.W * f.H)) * 4
+					f.Pix[p+1] ^= byte(0x11 * (i + 1))
+				}
+				frames = append(frames, f.Build())
+				durs = append(durs, 30)
+			}
+			for _, ll := range []bool{true, false} {
+				if b, err := animEncode(12, 10, frames, durs, &animation.EncodeOptions{Lossless: ll, Quality: 50, Kmax: 4}, nil, nil, nil, false); err == nil {
+					add(map[bool]string{true: "anim-long-lossless", false: "anim-long-lossy"}[ll], b)
+				}
+			}
+		}
 		// muxer output from raw parts
 		if rf, err := riffwalk.Parse(seedPool[3].Data); err == nil {
 			m := mux.NewMuxer()
